@@ -31,7 +31,7 @@ package otto
 
 // numOf: the real number a Go-number payload denotes, as the double ToNumber yields
 // (exact for every type except 64-bit integers beyond 2^53, which round to nearest even).
-//@ spec numOf(v Value) float64 = ite(is(v.value, float64), v.value.(float64),
+//@ ospec numOf(v Value) float64 = ite(is(v.value, float64), v.value.(float64),
 //@+  ite(is(v.value, int), float64(v.value.(int)), ite(is(v.value, int8), float64(v.value.(int8)),
 //@+  ite(is(v.value, int16), float64(v.value.(int16)), ite(is(v.value, int32), float64(v.value.(int32)),
 //@+  ite(is(v.value, int64), float64(v.value.(int64)), ite(is(v.value, uint), float64(v.value.(uint)),
@@ -62,6 +62,11 @@ package otto
 //@ sanity[C05] es5ToUint32(float64bits(4294967297.5)) == 1
 //@ sanity[C05] es5ToUint16(float64bits(65537.0)) == 1
 //@ sanity[C05] es5ToUint32(float64bits(0.9999)) == 0
+
+// ToInt32 / ToUint32 / ToUint16 of a Go-number payload
+//@ ospec i32of(v Value) int32 = es5ToInt32(float64bits(numOf(v)))
+//@ ospec u32of(v Value) uint32 = es5ToUint32(float64bits(numOf(v)))
+//@ ospec u16of(v Value) uint16 = es5ToUint16(float64bits(numOf(v)))
 
 // ES5 9.4 ToInteger on a double.
 //@ spec es5ToInteger(x float64) float64 = ite(isNaN(x), 0.0, ite(isInf(x), x, trunc(x)))
@@ -99,17 +104,17 @@ package otto
 //@ func toInt32
 //@   props C05
 //@   requires jsValue(value)
-//@   ensures isGoNumber(value) ==> result == es5ToInt32(float64bits(numOf(value)))
+//@   ensures isGoNumber(value) ==> result == i32of(value)
 
 //@ func toUint32
 //@   props C05
 //@   requires jsValue(value)
-//@   ensures isGoNumber(value) ==> result == es5ToUint32(float64bits(numOf(value)))
+//@   ensures isGoNumber(value) ==> result == u32of(value)
 
 //@ func toUint16
 //@   props C05
 //@   requires jsValue(value)
-//@   ensures isGoNumber(value) ==> result == es5ToUint16(float64bits(numOf(value)))
+//@   ensures isGoNumber(value) ==> result == u16of(value)
 
 //@ func toIntegerFloat
 //@   props C05
@@ -118,7 +123,7 @@ package otto
 
 // intOf: the int64 that Value.number() reports: the payload itself for integer types,
 // the saturating truncation of the double otherwise (NaN -> 0).
-//@ spec intOf(v Value) int64 = ite(is(v.value, int), int64(v.value.(int)), ite(is(v.value, int64), v.value.(int64),
+//@ ospec intOf(v Value) int64 = ite(is(v.value, int), int64(v.value.(int)), ite(is(v.value, int64), v.value.(int64),
 //@+  ite(is(v.value, int32), int64(v.value.(int32)), ite(is(v.value, int16), int64(v.value.(int16)), ite(is(v.value, int8), int64(v.value.(int8)),
 //@+  ite(is(v.value, uint32), int64(v.value.(uint32)), ite(is(v.value, uint16), int64(v.value.(uint16)), ite(is(v.value, uint8), int64(v.value.(uint8)),
 //@+  satInt64(numOf(v))))))))))
@@ -852,3 +857,35 @@ package otto
 //@   nosafety
 //@   requires rt != nil && rt.scope != nil && node != nil
 //@   at_call (Value).construct : rt.scope.frame.offset == calleeOffset(node.callee)
+
+// ---------------------------------------------------------------------------
+// evaluate.go: binary operators on resolved primitive operands (C05, C19)
+// ---------------------------------------------------------------------------
+
+//@ func (Value).resolve
+//@   inline
+//@ func (Value).reference
+//@   inline
+
+// ES5 11.10 (& | ^), 11.7 (<< >> >>>): ToInt32/ToUint32 of the operands, shift count
+// masked to 5 bits, >>> on the unsigned value; 11.8.6-7: in / instanceof raise TypeError
+// unless the right operand is an object.
+//@ spec isInt32Val(r Value, x int32) bool = r.kind == valueNumber && is(r.value, int32) && r.value.(int32) == x
+//@ spec isUint32Val(r Value, x uint32) bool = r.kind == valueNumber && is(r.value, uint32) && r.value.(uint32) == x
+//@ spec binaryOp(op token.Token) bool = op == token.PLUS || op == token.MINUS || op == token.MULTIPLY || op == token.SLASH || op == token.REMAINDER ||
+//@+  op == token.LOGICAL_AND || op == token.LOGICAL_OR || op == token.AND || op == token.OR || op == token.EXCLUSIVE_OR ||
+//@+  op == token.SHIFT_LEFT || op == token.SHIFT_RIGHT || op == token.UNSIGNED_SHIFT_RIGHT || op == token.INSTANCEOF || op == token.IN
+//@ func (*runtime).calculateBinaryExpression
+//@   props C05 C19
+//@   requires rt != nil && jsValue(left) && jsValue(right) && binaryOp(operator)
+//@   ensures operator == token.AND && isGoNumber(left) && isGoNumber(right) ==> isInt32Val(result, i32of(left) & i32of(right))
+//@   ensures operator == token.OR && isGoNumber(left) && isGoNumber(right) ==> isInt32Val(result, i32of(left) | i32of(right))
+//@   ensures operator == token.EXCLUSIVE_OR && isGoNumber(left) && isGoNumber(right) ==> isInt32Val(result, i32of(left) ^ i32of(right))
+//@   ensures operator == token.SHIFT_LEFT && isGoNumber(left) && isGoNumber(right) ==> isInt32Val(result, i32of(left) << (u32of(right) & 31))
+//@   ensures operator == token.SHIFT_RIGHT && isGoNumber(left) && isGoNumber(right) ==> isInt32Val(result, i32of(left) >> (u32of(right) & 31))
+//@   ensures operator == token.UNSIGNED_SHIFT_RIGHT && isGoNumber(left) && isGoNumber(right) ==> isUint32Val(result, u32of(left) >> (u32of(right) & 31))
+//@   ensures operator == token.MINUS && isGoNumber(left) && isGoNumber(right) ==> result.kind == valueNumber && is(result.value, float64) && sameFloat(result.value.(float64), numOf(left) - numOf(right))
+//@   ensures operator == token.MULTIPLY && isGoNumber(left) && isGoNumber(right) ==> result.kind == valueNumber && is(result.value, float64) && sameFloat(result.value.(float64), numOf(left) * numOf(right))
+//@   ensures operator == token.SLASH && isGoNumber(left) && isGoNumber(right) ==> result.kind == valueNumber && is(result.value, float64) && sameFloat(result.value.(float64), numOf(left) / numOf(right))
+//@   ensures operator == token.PLUS && isGoNumber(left) && isGoNumber(right) ==> result.kind == valueNumber && is(result.value, float64) && sameFloat(result.value.(float64), numOf(left) + numOf(right))
+//@   ensures operator == token.IN || operator == token.INSTANCEOF ==> right.kind == valueObject
